@@ -21,7 +21,7 @@ def graph_case(rng, tier):
     E = c02.Env()
     n = 2 + rng.below(7)
     names = ["s%d" % i for i in range(n)]
-    kind = rng.pick(["self", "chain", "cycle", "diamond", "repeat", "default-cycle", "ancestor", "name-ref", "random"])
+    kind = rng.pick(["self", "chain", "cycle", "diamond", "repeat", "default-cycle", "default-cycle-1", "ancestor", "descendant", "name-ref", "random"])
     E.root["leaf"] = [("lit", "alpha")]
     E.root["lf2"] = [("lit", "x-y")]
     def ref(nm): return ("ref", [("lit", nm)])
@@ -53,6 +53,28 @@ def graph_case(rng, tier):
                 E.root[nm] = [("op", ":", [("lit", nxt)], [("lit", "dflt")])]
             else:
                 E.root[nm] = [("lit", "c"), ref(nxt)]
+    elif kind == "default-cycle-1":
+        # a cycle absorbed by exactly one default, and further settings that reference into it
+        k = 2 + rng.below(min(3, n - 1))
+        for i in range(k):
+            nxt = names[(i + 1) % k]
+            E.root[names[i]] = [("op", ":", [("lit", nxt)], [("lit", "dflt")])] if i == k - 1 else [ref(nxt)]
+        for nm in names[k:]:
+            E.root[nm] = [ref(rng.pick(names[:k]))]
+    elif kind == "descendant":
+        # a reference whose path runs through a setting that is still being evaluated: its own descendant, or a
+        # descendant of a setting that refers back
+        r = rng.below(3)
+        if r == 0:
+            E.root["s0"] = [ref("s0.b")]
+        elif r == 1:
+            E.root["s0"] = [("lit", "x "), ref("s0.b"), ("lit", " y")]
+        else:
+            E.root["s0"] = [ref("s1.k")]
+            E.root["s1"] = [ref("s0")]
+        for nm in names:
+            if nm not in E.root:
+                E.root[nm] = [ref(rng.pick(["s0", "leaf", "s0.b"]))]
     elif kind == "ancestor":
         # o.child references o (its ancestor); a top-level setting references o.child
         nested = True
@@ -80,7 +102,7 @@ def gen(rng, tier):
         has_ops = any(c02.has_ops(E.root[nm]) - {"ref"} for nm in names)
         c["reads"] = [r for r in c["reads"] if r.get("r") != "view"][:len(names)]
         c["expect"] = c["expect"][:len(c["reads"])]
-        if not has_ops:
+        if not has_ops or kind == "default-cycle-1":
             extra.append({"r": "view"})
         # the same settings through typed Unpack targets (list, duration, number, pointer): a reference that is not
         # re-entered may fail to convert, but never with a cyclic-reference error; where the string is known the
@@ -113,7 +135,7 @@ def gen(rng, tier):
             extra.append({"r": "childview", "name": "o", "idx": -1})
         c["reads"] += extra
         c["expect"] += [None] * len(extra)
-        c["repeat"] = 3 if not has_ops else 1
+        c["repeat"] = 3 if (not has_ops or kind == "default-cycle-1") else 1
         c["_tag"] = "graph/" + kind
         c["_nt"] = kind != "chain"
         c["_sig"] = "%s|%d" % (kind, len(names))
